@@ -85,7 +85,19 @@ def prove_one(args):
             items.append(Item(id=f'{prop}/{c.key}/cover', kind='P', status='undecided', function=c.key,
                               note='vacuity guard: no exit of the function is reachable together with its postcondition',
                               detail='path conditions contradict the contract (contradictory requires / ensures of callees?)'))
-    verdicts = solve.discharge(world, rep.obligations, timeout_ms=timeout, jobs=1)
+    # one obligation after the other; once a few of a function's obligations have run into the solver's time limit the rest get a
+    # short budget (a function whose proof has stopped going through would otherwise cost minutes per obligation: the verdict
+    # for the property is `undecided` or a refutation either way)
+    verdicts = {}
+    slow = 0
+    for ob in rep.obligations:
+        if slow >= 3:
+            v = solve.discharge(world, [ob], timeout_ms=min(timeout, 4000), jobs=1, use_fallbacks=False)[ob.oid]
+        else:
+            v = solve.discharge(world, [ob], timeout_ms=timeout, jobs=1)[ob.oid]
+        if v.status == 'undecided':
+            slow += 1
+        verdicts[ob.oid] = v
     for ob in rep.obligations:
         v = verdicts[ob.oid]
         it = Item(id=f'{prop}/{ob.oid}', kind='P', status=v.status, note=ob.note, backend=v.backend, ms=v.ms,
